@@ -111,3 +111,8 @@ def sparse_subset(n: int, max_items: int = 24):
         return sorted(out)
 
     return s()
+
+
+def minimal_handle():
+    """Whether (and how) a case also reads its image through a bare-bones caller-side file object (hv.core.MinimalHandle)."""
+    return st.sampled_from([None, None, None, None, None, None, "plain", "seek-none"])
